@@ -241,7 +241,7 @@ def deletion_only(ctx, rule, n):
                  {U.UNQUOTE["path"], Uu + "normpath", U.QUOTE, NM.AMP_SUFFIX + ".sub", "re.sub", "os.path.splitext", "posixpath.splitext", "builtins.len"},
                  {"rstrip", "rsplit", "join", "sub", "pop", "endswith"}, site)
     U.check_sink(ctx, rule, fn, "query", n.query, {"query"},
-                 {U.UNQUOTE["query"], U.QUOTE, Uu + "safe_qsl_iter", Uu + "safe_serialize_qsl", Uq + "safely_unquote_qsl", Uq + "safely_quote_qsl",
+                 {U.UNQUOTE["query"], U.UNQUOTE_VALUE, U.QUOTE, Uu + "safe_qsl_iter", Uu + "safe_serialize_qsl", Uq + "safely_unquote_qsl", Uq + "safely_quote_qsl",
                   Uu + "fix_common_query_mistakes", "builtins.sorted"}, set(), site)
     U.check_sink(ctx, rule, fn, "fragment", n.fragment, {"fragment"}, {U.UNQUOTE["fragment"], U.QUOTE}, set(), site)
     # substitutions replace with ''
